@@ -44,6 +44,6 @@ def run(tier):
             ({"sigs": {1: "u8"}, "threads": [[F(1, 100), ("O", 1, 1), F(1, 100), ("A", 1)]], "closer": 0}, 0, 2),
         ]
         sim = ({"sigs": sig2, "threads": [[F(1, 100), ("A", 1), F(1, 90), ("U", 1)], [F(3, 100), ("D", 33), F(3, 60)]], "closer": 0},
-               0, 800, 1500)
-    twr.run_campaign(ck, "C06", sc, exe, rng, mc_progs, graph_progs, 4000 if thorough else 300, sim=sim)
+               0, 2500, 1500)
+    twr.run_campaign(ck, "C06", sc, exe, rng, mc_progs, graph_progs, 15000 if thorough else 300, sim=sim)
     return ck.finish()
